@@ -13,7 +13,7 @@ import sys
 sys.path.insert(0, os.path.dirname(os.path.dirname(os.path.abspath(__file__))))
 
 from mc import runner, fakegame  # noqa: E402
-from mc.driver import MachineDriver, r6  # noqa: E402
+from mc.driver import MachineDriver, r6, simple_state  # noqa: E402
 from mc.explore import bfs  # noqa: E402
 
 import mpf.platforms.virtual as virtual_mod  # noqa: E402
@@ -251,7 +251,8 @@ class RulesDriver(MachineDriver):
                  g.tilted, g.slam_tilted, g.ending) if g else None,
                 tuple(sorted(self.coil_on.items())), tuple(getattr(d, "_sw_flipped", None) for d in self.devs.values()),
                 tuple(sorted(self.installed.items())), self.rel_timers(), self.modes_fp(), self.m.playfield.balls,
-                len([t for t in self.all_devs["a_to"]._timeout_hits if t > self.loop.time() - 1.0]), self.task_fp())
+                len([t for t in self.all_devs["a_to"]._timeout_hits if t > self.loop.time() - 1.0]), self.task_fp(),
+                tuple(simple_state(d, now=self.loop.time()) for _, d in sorted(self.all_devs.items())))
 
     def observe(self):
         return {"rules": sorted(self.rule_table()), "enabled": sorted(n for n, d in self.all_devs.items() if d._enabled),
